@@ -81,7 +81,7 @@ func init() {
 		Funcs: []string{
 			`service.VerifyAPREQ`,
 			`\(\*service\.Settings\)\.(MaxClockSkew|KeytabPrincipal|ClientAddress|RequireHostAddr|Logger)`,
-			`\(\*messages\.APReq\)\.(Verify|DecryptAuthenticator)`, `\(\*messages\.Ticket\)\.(Valid|Decrypt|DecryptEncPart)`,
+			`\(\*messages\.APReq\)\.(Verify|DecryptAuthenticator)`, `\(\*messages\.Ticket\)\.(Valid|Decrypt|DecryptEncPart|GetPACType)`,
 			`messages.authenticatorKeyUsage`, `messages.NewKRBError`,
 			`(*keytab.Keytab).GetEncryptionKey`,
 			`(types.PrincipalName).Equal`, `(*types.HostAddress).Equal`, `types.HostAddressesContains`, `types.IsFlagSet`,
@@ -372,20 +372,20 @@ func init() {
 		Funcs: []string{
 			`(*client.Client).GetCachedTicket`, `(*client.Cache).getEntry`, `(*client.Cache).addEntry`, `(*client.session).update`,
 			`(*client.Client).TGSExchange`, `(*client.Client).ASExchange`, `(*client.Client).TGSREQGenerateAndExchange`,
+			`(*client.Client).ensureValidSession`,
 		},
 		Kinds:           kinds(append([]string{"lock"}, contractKinds...)...),
 		NeedObligations: true,
 		QuickTimeout:    20,
 		Assumptions: []string{
 			"time.Now readings are arbitrary non-decreasing instants; now#1 / now#2 are the two readings GetCachedTicket compares with the entry's start and end time",
-			"ghost records: the start / end time of the cache entry returned by Cache.getEntry and a count of ticket renewals",
+			"ghost records: the start / end time of the cache entry returned by Cache.getEntry, a count of ticket renewals, a count of session refreshes / logins (event counters: their contract clauses hold by definition)",
 			"exchanges with the KDC are the contracts of C09 (replies arbitrary, accepted only if they answer the request)",
 		},
 		NotDecided: []string{
 			"'against any conformant KDC login obtains a TGT and the right service ticket', well-formedness of the requests built by NewASReq / NewTGSReq (options, etypes, lifetimes, pre-authentication) and the auto-renewal goroutine over time: protocol-level histories that per-function contracts do not express; the reply-matching part is C09",
-			"ensureValidSession's 1/6-lifetime rule is not under contract (the session it reads is not nameable in the contract language)",
 		},
-		LevelNote: "Proved: a ticket is served from the cache without renewal only if the first clock reading lies after the entry's start time and the second before its end time (the entry being the one read under the cache lock); a renewed TGT overwrites every field of the session with the values of the KDC reply (authtime, endtime, renew-till, ticket, session key, key expiration); AS and TGS referral chains are bounded by the variant 6 - referral, including through TGSREQGenerateAndExchange. The protocol-level clauses are listed as not decided.",
+		LevelNote: "Proved: a ticket is served from the cache without renewal only if the first clock reading lies after the entry's start time and the second before its end time (the entry being the one read under the cache lock); a renewed TGT overwrites every field of the session with the values of the KDC reply (authtime, endtime, renew-till, ticket, session key, key expiration); AS and TGS referral chains are bounded by the variant 6 - referral, including through TGSREQGenerateAndExchange; ensureValidSession leaves a session unrefreshed only if, at the clock reading it takes under the session's lock, more than a sixth of the session's lifetime remains. The protocol-level clauses are listed as not decided.",
 	}
 	props["C15"] = &PropDef{
 		Funcs: []string{
@@ -395,13 +395,17 @@ func init() {
 		Kinds:           kinds(contractKinds...),
 		NeedObligations: true,
 		QuickTimeout:    20,
+		Extra: func(cc *checkCtx) []*Obligation {
+			return cc.boundedTest("ccache file to client", "client", "ccache_client_test.go.txt", "^TestGowpBoundedCCacheClient$",
+				"400 (thorough: 20000) pseudo-random cache files of format versions 1-4 rendered by an independent writer (1..5 credentials incl. X-CACHECONF entries, 1..3 components, 0..2 addresses / authdata entries, key lengths 0..40, times over the signed 32-bit range, v4 header with 0..1 fields): Unmarshal yields every field written, GetEntries / GetEntry the right credentials, NewFromCCache a client holding every ticket with its own key and times")
+		},
 		Assumptions: []string{
 			"isNativeEndianLittle (unsafe) is trusted; bytes.Buffer / binary.Read models are exact on the buffer contents (trusted stdlib)",
 			"the readers have no error result: 'enough octets remain at the cursor' is their precondition; well-formed files satisfy it, the parser does not check it for arbitrary files (known finding of C04: credentials.read* / parse* / Unmarshal)",
 			"time.Unix / Time.Unix are related by timeunix(time.Unix(s, 0)) = s",
 		},
 		NotDecided: []string{
-			"the composition of the readers into parseHeader / parsePrincipal / parseCredential / Unmarshal for whole files of format versions 1 to 4 (a file-level well-formedness predicate and the version-dependent layout are not under contract), and client.NewFromCCache",
+			"the composition of the readers into parseHeader / parsePrincipal / parseCredential / Unmarshal for whole files of format versions 1 to 4 (a file-level well-formedness predicate and the version-dependent layout are not under contract), and client.NewFromCCache: covered by the bounded file-to-client stand-in only, not proved",
 		},
 		LevelNote: "Proved for every buffer, cursor and byte order: the ccache readers decode exactly the octets at the cursor - 8/16/32-bit integers in the file's byte order, counted octet strings (32-bit length then data, copied into a new slice), addresses and authorization-data entries (16-bit type, counted data), timestamps as sign-extended 32-bit seconds - and advance the cursor by exactly what they consumed; Contains / GetEntry decide by equality of all principal-name components and GetEntry returns the first such credential; GetEntries returns a new list whose elements are credentials of the cache, and none of the lookups writes to the cache.",
 	}
@@ -414,13 +418,18 @@ func init() {
 		Kinds:           kinds(append([]string{"table"}, contractKinds...)...),
 		NeedObligations: true,
 		QuickTimeout:    20,
-		Extra:           func(cc *checkCtx) []*Obligation { return cc.finalFlagCheck() },
+		Extra: func(cc *checkCtx) []*Obligation {
+			out := cc.finalFlagCheck()
+			out = append(out, cc.boundedTest("config.ResolveRealm", "config", "resolverealm_test.go.txt", "^TestGowpBoundedResolveRealm$",
+				"exhaustive: every host name of 1..4 labels over {a, b}, with and without a trailing dot, against every subset of 9 candidate [domain_realm] keys (30720 cases); ResolveRealm equals an independently written most-specific-match oracle")...)
+			return out
+		},
 		Assumptions: []string{
 			"strings / strconv / regexp functions are trusted stdlib contracts (lengths and containment only): the textual semantics of krb5.conf lines are not modelled",
 			"math/rand.Intn returns 0 <= r < n",
 		},
 		NotDecided: []string{
-			"that a krb5.conf using the documented MIT syntax loads with the documented values (booleans, durations, enctype lists, port defaults, domain mappings), rejection of structurally invalid files, and most-specific matching in ResolveRealm: these are statements about text, which the string model (uninterpreted strings with lengths) cannot express; the parsers are covered for memory safety and termination only (shared with C04)",
+			"that a krb5.conf using the documented MIT syntax loads with the documented values (booleans, durations, enctype lists, port defaults, domain mappings), rejection of structurally invalid files: these are statements about text (most-specific matching in ResolveRealm likewise: bounded exhaustive stand-in only), which the string model (uninterpreted strings with lengths) cannot express; the parsers are covered for memory safety and termination only (shared with C04)",
 		},
 		LevelNote: "Proved: appendUntilFinal appends nothing once the relation's final flag is set, otherwise appends exactly the value (without a trailing '*', which sets the flag) and keeps the earlier values; decided structurally over the current source: every multi-valued realm relation (kdc, master_kdc, admin_server, kpasswd_server) is parsed with a final-value flag of its own; KDC / kpasswd look-up returns every configured server under keys 1..n (set level) without writing to the configuration; the parsing functions are memory-safe and terminate on every input.",
 	}
